@@ -250,7 +250,11 @@ def pair_event_live(ns, tid, seq, model, I, driver, k, rng):
 
     def to_scaled():
         cur = model
-        # first, edits the capacity check must refuse (a base RAM consumption above what an instance offers): a refused edit
+        # a what-if simulation made and switched on and off first: it leaves the baseline as it was, so the driver's effect
+        # afterwards must be the same
+        if rng.random() < 0.5 and simulate_and_toggle(ns, live, cur, rng):
+            SKIPPED["simulated_before_scaling"] = SKIPPED.get("simulated_before_scaling", 0) + 1
+        # then, edits the capacity check must refuse (a base RAM consumption above what an instance offers): a refused edit
         # changes nothing, so the driver's effect afterwards must be the same
         for v in sorted(I["sv"]):
             if rng.random() < 0.5:
@@ -342,7 +346,7 @@ def _from(model, name):
     return seen
 
 
-def edited_events(ns, seeds, n_edits, theorems=(), kinds=None, simulate=False, **gen_kw):
+def edited_events(ns, seeds, n_edits, theorems=(), kinds=None, simulate=False, group_prob=0.0, with_totals=False, **gen_kw):
     """lattice systems, built then edited in place: one Model event after each edit (observed on the live system)"""
     events = []
     for tid, seed in enumerate(seeds, start=1):
@@ -366,6 +370,19 @@ def edited_events(ns, seeds, n_edits, theorems=(), kinds=None, simulate=False, *
                 follow_up = False
             else:
                 edit, I2 = (lattice.lattice_edit(rng, model, I, kinds) if kinds else lattice.lattice_edit(rng, model, I))
+                groupable = lambda x: x[0] == "input" or (x[0] == "opt" and x[2] == "starts")
+                if group_prob and rng.random() < group_prob and groupable(edit):
+                    # two changes in ONE update (their recomputation chains are merged and re-sorted in the canonical order)
+                    try:
+                        m1 = efx.apply_edit_abstract(model, edit)
+                        for _try in range(8):
+                            e2, I3 = (lattice.lattice_edit(rng, m1, I2, kinds) if kinds else lattice.lattice_edit(rng, m1, I2))
+                            if groupable(e2) and (e2[1], e2[2]) != (edit[1], edit[2]):
+                                edit, I2 = ("group", [edit, e2]), I3
+                                SKIPPED["grouped"] = SKIPPED.get("grouped", 0) + 1
+                                break
+                    except lattice.OffLattice:
+                        pass
 
             def do(edit=edit, model=model):
                 efx.apply_edit_live(ns, model, live, edit)
@@ -390,8 +407,17 @@ def edited_events(ns, seeds, n_edits, theorems=(), kinds=None, simulate=False, *
                 if last < n_edits + 2:
                     last += 1
                     follow_up = True
-                    refused_obj = edit[1] if len(edit) > 1 and isinstance(edit[1], str) and \
-                        model.get(edit[1], {}).get("cls") == "Server" else None
+                    first = edit[1][0] if edit[0] == "group" else edit
+                    refused_obj = first[1] if len(first) > 1 and isinstance(first[1], str) and \
+                        model.get(first[1], {}).get("cls") == "Server" else None
                 continue
             model, I = model2, I2
+            if with_totals:
+                # the hourly total, its components and the views, read on the LIVE system after the accepted edit
+                try:
+                    t = totals_event(ns, tid, 2000 + k, model, I, live)
+                    t["seed"], t["edit"] = seed, edit
+                    events.append(t)
+                except lattice.OffLattice:
+                    pass
     return events
